@@ -1293,15 +1293,17 @@ class Machine:
         for sid, e in list(self.S.entries.items()):
             if any(e.obj is t for t in targets):
                 continue
+            # both oracles are evaluated on every entry: a stale N after a hostile write is a C06 event (the object
+            # changed) *and* a C05 event (it no longer describes its cores)
             r = check_unchanged(e.obj, e.snap)
             if r is not None:
                 self._report('C06', 'UNCHANGED' + phase, opname, r[0], 'object created at step %s: %s' % (sid, r[1]))
                 dead.append(sid)
-                continue
             r = check_wf(e.obj)
             if r is not None:
                 self._report('C05', 'WF' + phase, opname, r[0], 'object created at step %s: %s' % (sid, r[1]))
-                dead.append(sid)
+                if sid not in dead:
+                    dead.append(sid)
         for sid in dead:
             self.S.entries.pop(sid, None)
 
